@@ -1,0 +1,22 @@
+//go:build verif
+
+package network
+
+// Contracts for the socket listener (property C01), checked by /verif/govc.
+// Comment-only file: it adds nothing to any build.
+//
+// The accept and datagram loops run for the life of the process, outside any recover; they cannot panic.
+//@ func (*socketListener).Start$1
+//@   check safety
+//@   requires l != nil && sl != nil
+//@   modifies *
+//@ func (*socketListener).Start$2
+//@   check safety
+//@   requires l != nil && sl != nil
+//@   modifies *
+//
+// Accept never fails (the server's accept loop panics on an error).
+//@ func (*socketListener).Accept
+//@   check safety
+//@   ensures result1 == nil
+//@   modifies nothing
